@@ -1,7 +1,6 @@
 package bigint
 
 import (
-	"math"
 	"math/big"
 	"math/bits"
 	"slices"
@@ -106,29 +105,11 @@ func ToPreallocatedBytes(n *big.Int, data []byte) []byte {
 		return data[:0]
 	}
 
+	// For a negative n the bytes are the inverted bytes of -n-1 = ^n. The argument
+	// is never written to: it may be shared between goroutines.
 	if sign < 0 {
-		bits := n.Bits()
-		carry := true
-		nonZero := false
-		for i := range bits {
-			if carry {
-				bits[i]--
-				carry = (bits[i] == math.MaxUint)
-			}
-			nonZero = nonZero || (bits[i] != 0)
-		}
-		defer func() {
-			var carry = true
-			for i := range bits {
-				if carry {
-					bits[i]++
-					carry = (bits[i] == 0)
-				} else {
-					break
-				}
-			}
-		}()
-		if !nonZero { // n == -1
+		n = new(big.Int).Not(n)
+		if n.Sign() == 0 { // the argument is -1
 			return append(data[:0], 0xFF)
 		}
 	}
